@@ -17,6 +17,7 @@ theorem refines (s : Cache) (op : Op) :
     abs (step s op).1 = (Spec.step (abs s) op).1 ∧ (step s op).2 = (Spec.step (abs s) op).2 := by
   cases op with
   | finalizeBad c => simp [step, Spec.step]
+  | verifyBad c => simp [step, Spec.step]
   | verify c =>
     simp only [step, Spec.step]
     cases hg : Map.get s c with
@@ -109,6 +110,10 @@ theorem inv_step (sp : Spec) (h : History) (op : Op) (hi : Inv sp h) :
   obtain ⟨hk, hb⟩ := hi
   cases op with
   | finalizeBad c =>
+    constructor
+    · intro c'; simp [Spec.step, Verified, hk c'] 
+    · intro c' i a; simp [Spec.step, Accepted, hb c' i a]
+  | verifyBad c =>
     constructor
     · intro c'; simp [Spec.step, Verified, hk c'] 
     · intro c' i a; simp [Spec.step, Accepted, hb c' i a]
@@ -275,6 +280,7 @@ theorem reject_preserves (s : Cache) (op : Op)
   cases op with
   | verify c => simp [Spec.step] at hrej
   | finalizeBad c => simp [Spec.step]
+  | verifyBad c => simp [Spec.step]
   | finalize c i a =>
     simp only [Spec.step] at hrej ⊢
     split
@@ -294,6 +300,7 @@ theorem binding_stable (s : Cache) (op : Op) (c : ClientId) (i : Idx) (a : Anon)
   cases op with
   | verify c' => simpa [Spec.step] using hb
   | finalizeBad c' => simpa [Spec.step] using hb
+  | verifyBad c' => simpa [Spec.step] using hb
   | finalize c' i' a' =>
     simp only [Spec.step]
     split
